@@ -536,8 +536,26 @@ def rule_update_formulas(repo, rep):
                 'self.batch_size' % m,
                 'np.sum(dist_diff[idx][%s, :], axis=0, keepdims=True) / '
                 'self.batch_size' % m]
+    # the divisor, with every temporary of the function unfolded
+    den_bad = None
+    if isinstance(gexp, ast.BinOp) and isinstance(gexp.op, ast.Div):
+      top_ = loops[0]
+      pm_ = astutil.parents(f.node)
+      while top_ not in f.node.body and top_ in pm_:
+        top_ = pm_[top_]
+      den = astutil.unfold(gexp.right, f.node.body, top_,
+                           stop=tuple(f.params())) \
+          if top_ in f.node.body else gexp.right
+      num_ok = any(w_.rsplit(' / ', 1)[0] == ast.unparse(gexp.left)
+                   .replace('rand_int[iter]', 'idx') for w_ in wants)
+      if num_ok and ast.unparse(den) != 'self.batch_size':
+        den_bad = ast.unparse(den)
     if got in wants:
       rep.derived(R, 'scml._BaseSCML._fit:grad_w', site(f, stm['grad_w']))
+    elif den_bad is not None:
+      rep.refuted(R, 'scml._BaseSCML._fit:grad_w', site(f, stm['grad_w']),
+                  'the mini-batch sub-gradient is divided by %s, the '
+                  'documented scheme divides by self.batch_size' % den_bad)
     else:
       rep.unknown(R, 'scml._BaseSCML._fit:grad_w', site(f, stm['grad_w']),
                   'grad_w = %s is not in the table of recognised forms' % got)
@@ -865,6 +883,103 @@ def _dist_diff_interp(repo, rep, R):
       rep.unknown(R, key, site(h), 'dist_diff evaluates to %s' % txt)
 
 
+def rule_triplet_basis_guard(repo, rep):
+  R = 'R-GUARD:triplet-basis-feasibility'
+  rep.rule(R, 'basis generation from triplet differences draws n_features '
+           'triplets without replacement, which is possible exactly when '
+           'n_features <= n_triplets: the ValueError about too few triplets '
+           'is unreachable for n_features <= n_triplets (representatives '
+           '(3, 3), (3, 4), (2, 5), (1, 1)) and reachable for n_features > '
+           'n_triplets ((4, 3), (2, 1))')
+  from .. import guardeval
+  import copy
+  f = repo.get_func('scml._BaseSCML._generate_bases_dist_diff')
+  if f is None:
+    rep.unknown(R, 'scml._BaseSCML._generate_bases_dist_diff', '', 'vanished')
+    return
+  rep.analysed(f)
+  key = 'scml._BaseSCML._generate_bases_dist_diff'
+  dn, tn = set(), set()
+  for n in ast.walk(f.node):
+    if isinstance(n, ast.Assign):
+      for tg_, val in astutil.assign_pairs(n):
+        v = ast.unparse(val)
+        if v in ('X.shape[1]', 'X.shape[-1]'):
+          dn.add(tg_)
+        if v in ('triplets.shape[0]', 'len(triplets)'):
+          tn.add(tg_)
+      if isinstance(n.targets[0], ast.Tuple) and \
+              len(n.targets[0].elts) == 2 and \
+              ast.unparse(n.value) == 'X.shape':
+        dn.add(ast.unparse(n.targets[0].elts[1]))
+  raises = []
+  for n in ast.walk(f.node):
+    if isinstance(n, ast.Raise):
+      conds = ' '.join(astutil.path_condition(f.node, n))
+      if any(x in conds for x in tn | {'triplets.shape[0]', 'len(triplets)'}):
+        raises.append(n)
+  if len(raises) != 1:
+    rep.unknown(R, key, site(f), '%d rejections that depend on the number '
+                'of triplets' % len(raises))
+    return
+  target = raises[0]
+
+  class Sub(ast.NodeTransformer):
+    def __init__(self, d, n):
+      self.d, self.n = d, n
+
+    def visit_Name(self, x):
+      if isinstance(x.ctx, ast.Load) and x.id in dn:
+        return ast.copy_location(ast.Constant(self.d), x)
+      if isinstance(x.ctx, ast.Load) and x.id in tn:
+        return ast.copy_location(ast.Constant(self.n), x)
+      return x
+
+    def visit_Subscript(self, x):
+      t = ast.unparse(x)
+      if t in ('X.shape[1]', 'X.shape[-1]'):
+        return ast.copy_location(ast.Constant(self.d), x)
+      if t == 'triplets.shape[0]':
+        return ast.copy_location(ast.Constant(self.n), x)
+      self.generic_visit(x)
+      return x
+
+    def visit_Call(self, x):
+      if ast.unparse(x) == 'len(triplets)':
+        return ast.copy_location(ast.Constant(self.n), x)
+      self.generic_visit(x)
+      return x
+  bad = unk = None
+  for (d, n, feasible) in ((3, 3, True), (3, 4, True), (2, 5, True),
+                           (1, 1, True), (4, 3, False), (2, 1, False)):
+    def tev(test, d=d, n=n):
+      return guardeval.ev(Sub(d, n).visit(copy.deepcopy(test)), {})
+    r = guardeval.reaches(f.node.body, target, tev)
+    if feasible and r == 'yes':
+      bad = bad or 'n_features = %d, n_triplets = %d is rejected although ' \
+          '%d triplets can be drawn' % (d, n, d)
+    elif feasible and r == 'maybe':
+      # reachable only through undecided tests that precede it: decide the
+      # guard itself
+      conds = astutil.enclosing(f.node, target, ast.If)
+      try:
+        if conds and all(tev(ifn.test) == (ch in ifn.body)
+                         for (ifn, ch) in conds[:1]):
+          bad = bad or 'n_features = %d, n_triplets = %d is rejected ' \
+              'although %d triplets can be drawn' % (d, n, d)
+      except guardeval.Undecided as u:
+        unk = unk or str(u)
+    elif not feasible and r == 'no':
+      bad = bad or 'n_features = %d > n_triplets = %d is not rejected: the ' \
+          'draw without replacement then fails inside numpy' % (d, n)
+  if bad:
+    rep.refuted(R, key, site(f, target), bad)
+  elif unk:
+    rep.unknown(R, key, site(f, target), unk)
+  else:
+    rep.derived(R, key, site(f, target))
+
+
 def check(repo, rep, tier):
   rule_weights_nonneg(repo, rep)
   rule_components_form(repo, rep)
@@ -872,6 +987,7 @@ def check(repo, rep, tier):
   rule_lda_normalised(repo, rep)
   rule_update_formulas(repo, rep)
   rule_objective_and_distances(repo, rep)
+  rule_triplet_basis_guard(repo, rep)
   # option paths executable (C03(7)) and RNG discipline (C17), SCML only
   before = len(rep.obs)
   fl = len(rep.floors)
